@@ -42,6 +42,7 @@ import (
 type stCfg struct {
 	Proto   string `json:"proto"` // rtmp | rtmpmw | flv | wsflv | ts | wsts | rtsp | wsrtsp
 	Two     bool   `json:"two"`   // a second stream (another Group) under one logic.ServerManager
+	Gop     int    `json:"gop"`   // gop_num of the rtmp / http-flv / http-ts caches (0 = no cache)
 	Tcp     bool   `json:"tcp"`   // consumers on real loopback TCP connections (stall_tcp.go); n = stalled consumers
 	N       int    `json:"n"`
 	BoundUs int64  `json:"boundUs"`
@@ -951,6 +952,9 @@ func runStallScenario(sc *stScenario, seed int64, skipBlocked bool) (evs []M, sl
 		cfg := &logic.Config{}
 		cfg.RtmpConfig.Enable = true
 		cfg.RtmpConfig.MergeWriteSize = mw
+		cfg.RtmpConfig.GopNum = sc.Cfg.Gop
+		cfg.HttpflvConfig.GopNum = sc.Cfg.Gop
+		cfg.HttptsConfig.GopNum = sc.Cfg.Gop
 		cfg.HttpflvConfig.Enable = proto == "flv" || proto == "wsflv"
 		cfg.HttptsConfig.Enable = proto == "ts" || proto == "wsts"
 		cfg.RtspConfig.Enable = isRtsp
@@ -1105,7 +1109,7 @@ func runStallScenario(sc *stScenario, seed int64, skipBlocked bool) (evs []M, sl
 	prime := func(only string) (M, error) {
 		pr := M{"s1": []stPart{}, "s2": []stPart{}}
 		nstep++
-		if (sc.Sc+nstep)%4 == 0 {
+		if sc.Cfg.Gop == 0 && (sc.Sc+nstep)%4 == 0 { // with a GOP cache every call meets primed writers (bursts are long)
 			return pr, nil
 		}
 		did := map[string]bool{}
@@ -1501,6 +1505,25 @@ func runStallScenario(sc *stScenario, seed int64, skipBlocked bool) (evs []M, sl
 				return
 			}
 			snap(M{"ev": "Join", "lost": ""})
+		case "RR":
+			// the consumer sends an RTCP receiver report on the RTCP channel of its first track ('$'-framed on the
+			// command connection); the session has nothing to answer
+			c := cons[st.C]
+			if c == nil || c.done == nil || c.rcmd == nil || ws || c.conn.isClosed() {
+				continue
+			}
+			rr := []byte{0x80, 201, 0, 1, 0x12, 0x34, 0x56, byte(sc.Sc)}
+			c.conn.Feed(append([]byte{'$', 1, 0, byte(len(rr))}, rr...))
+			blocked, e := settle(c)
+			if e != nil {
+				err = e
+				return
+			}
+			snap(M{"ev": "RR", "c": st.C, "blocked": blocked})
+			if blocked {
+				blockedSeen = true
+				return
+			}
 		case "Cmd":
 			// the consumer sends a request while data is queued for it; the healthy consumer sends the same request
 			// and shows what the answer looks like when nothing is queued
